@@ -1,4 +1,4 @@
-(* Base/Keys.v — decimal and lowercase-hex printing as Go does it
+(* Base/Keys.v — decimal and uppercase-hex printing as Go does it
    (strconv.FormatUint(n,10), hex.EncodeToString), with injectivity. *)
 From Coq Require Import String Ascii NArith List Bool DecimalString DecimalN.
 Import ListNotations.
@@ -16,7 +16,7 @@ Proof.
   rewrite <- (Unsigned.of_to n), <- (Unsigned.of_to m), E'; reflexivity.
 Qed.
 
-(* hex.EncodeToString: two lowercase hex digits per byte, high nibble first *)
+(* go-header Hash.String(): two uppercase hex digits per byte, high nibble first *)
 Definition hexdigit (b3 b2 b1 b0 : bool) : ascii :=
   match b3, b2, b1, b0 with
   | false, false, false, false => "0" | false, false, false, true => "1"
@@ -24,9 +24,9 @@ Definition hexdigit (b3 b2 b1 b0 : bool) : ascii :=
   | false, true, false, false => "4"  | false, true, false, true => "5"
   | false, true, true, false => "6"   | false, true, true, true => "7"
   | true, false, false, false => "8"  | true, false, false, true => "9"
-  | true, false, true, false => "a"   | true, false, true, true => "b"
-  | true, true, false, false => "c"   | true, true, false, true => "d"
-  | true, true, true, false => "e"    | true, true, true, true => "f"
+  | true, false, true, false => "A"   | true, false, true, true => "B"
+  | true, true, false, false => "C"   | true, true, false, true => "D"
+  | true, true, true, false => "E"    | true, true, true, true => "F"
   end%char.
 
 Definition hex_hi (a : ascii) : ascii := let '(Ascii b0 b1 b2 b3 b4 b5 b6 b7) := a in hexdigit b7 b6 b5 b4.
